@@ -1,1 +1,2 @@
+pub mod dbg;
 pub mod vm;
